@@ -271,6 +271,51 @@ func workerMain() {
 		states++
 		trans += 2
 	}
+	// ---- (d) well-formed files of 8 and 20 triangles in which one coordinate is non-finite or extreme, at every
+	// triangle position (a mesh large enough for the spatial index of obj.ImportSTL to have split)
+	badF := []struct {
+		name string
+		bits uint32
+		txt  string
+	}{{"NaN", 0x7fc00000, "nan"}, {"+Inf", 0x7f800000, "inf"}, {"-Inf", 0xff800000, "-Inf"}, {"3e38", math.Float32bits(3e38), "1e308"}, {"1e-45", 1, "1e-320"}, {"-0", 0x80000000, "-0"}}
+	for _, nt := range []int{8, 20} {
+		for pos := 0; pos < nt; pos++ {
+			for _, bf := range badF {
+				for _, slot := range []int{3, 7, 11} { // x of the first, y of the second, z of the third vertex
+					fb := new(bytes.Buffer)
+					fb.Write(make([]byte, 80))
+					binary.Write(fb, binary.LittleEndian, uint32(nt))
+					for i := 0; i < nt; i++ {
+						rec := [12]float32{0, 0, 1, float32(i), 0, 0, float32(i) + 1, 0, 0.5, float32(i), 1, 0.25}
+						bits := [12]uint32{}
+						for q, v := range rec {
+							bits[q] = math.Float32bits(v)
+						}
+						if i == pos {
+							bits[slot] = bf.bits
+						}
+						binary.Write(fb, binary.LittleEndian, bits)
+						fb.Write([]byte{0, 0})
+					}
+					w.one(c, filepath.Join(work, "bin.stl"), fb.Bytes(), map[string]any{"kind": "binary-with-one-extreme-coordinate", "triangles": nt, "bad_triangle": pos, "value": bf.name, "float_slot": slot}, "extreme-coordinate|"+bf.name, true)
+					states++
+					trans += 2
+				}
+				ab := "solid t\n"
+				for i := 0; i < nt; i++ {
+					x := fmt.Sprint(i)
+					if i == pos {
+						x = bf.txt
+					}
+					ab += fmt.Sprintf(" facet normal 0 0 1\n  outer loop\n   vertex %s 0 0\n   vertex %d 0 0.5\n   vertex %d 1 0.25\n  endloop\n endfacet\n", x, i+1, i)
+				}
+				ab += "endsolid t\n"
+				w.one(c, filepath.Join(work, "bin.stl"), []byte(ab), map[string]any{"kind": "ascii-with-one-extreme-coordinate", "facets": nt, "bad_facet": pos, "token": bf.txt}, "extreme-coordinate|"+bf.name, true)
+				states++
+				trans += 2
+			}
+		}
+	}
 	// one long single-line file (scanner token limit) and one long many-line file
 	long1 := []byte(pad + "vertex " + strings.Repeat("1", 70*1024) + " 2 3\n")
 	w.one(c, filepath.Join(work, "bin.stl"), long1, map[string]any{"kind": "single-70KiB-line"}, "long-line", true)
